@@ -168,6 +168,15 @@ def run(ctx):
             chk.ok("R07.e", fi.qualname, fi.loc(), f"closure of {len(closure)} functions is write-free on shared objects")
     chk.floor("R07.e", chk.count("R07.e"), 4, "filters")
 
+    # ---------------------------------------------------------------- R07.f
+    chk.rule("R07.f", "an entry stored under machine m of a per-machine table built inside `for m in <op>.machines` is computed from m (start/end times are per machine)")
+    n_tab = 0
+    fmod = factory.module if factory.module.functions.get("filter_dominated_operations") else next(
+        (mi for mi in repo.modules.values() if "filter_dominated_operations" in mi.functions), factory.module)
+    for fi in fmod.functions.values():
+        n_tab += _per_machine_tables(ctx, fi)
+    chk.floor("R07.f", n_tab, 1, "per-machine table stores")
+
     # ---------------------------------------------------------------- R07.b
     comp_factory = repo.find_function("create_composite_operation_filter")
     inner = [
@@ -289,6 +298,75 @@ def run(ctx):
     if not bad:
         chk.ok("R07.d", avail.qualname, avail.loc(), f"{len(res)} paths")
     chk.floor("R07.d", len(res), 2, "available_operations paths")
+
+
+def _per_machine_tables(ctx, fi: FuncInfo) -> int:
+    """Stores ``T[m] = V`` whose index is the loop variable of an enclosing
+    ``for m in X.machines``: V (without T[m] itself) or a guard between the
+    loop and the store must depend on m, unless V is a constant."""
+    chk = ctx.chk
+    defs = ctx.flow.defs(fi)
+    parents = fi.module.parents
+    n = 0
+
+    def mentions(e, name, depth=0, skip=None):
+        for x in ast.walk(e):
+            if skip is not None and isinstance(x, ast.Subscript) and ast.unparse(x) == skip:
+                continue
+            if isinstance(x, ast.Name):
+                if x.id == name:
+                    # the occurrence inside the skipped T[m] does not count
+                    par = parents.get(x)
+                    if skip is not None and isinstance(par, ast.Subscript) and ast.unparse(par) == skip:
+                        continue
+                    return True
+                if depth < 5:
+                    for d in defs.of(x.id):
+                        if d[0] == "value" and d[1] is not e and mentions(d[1], name, depth + 1, skip):
+                            return True
+        return False
+
+    for st in own_nodes(fi.node):
+        if not isinstance(st, (ast.Assign, ast.AugAssign)):
+            continue
+        tg = st.targets[0] if isinstance(st, ast.Assign) else st.target
+        if not (isinstance(tg, ast.Subscript) and isinstance(tg.slice, ast.Name) and isinstance(tg.value, ast.Name)):
+            continue
+        m = tg.slice.id
+        # enclosing for m in <...>.machines
+        cur, loop, guards = parents.get(st), None, []
+        while cur is not None and cur is not fi.node:
+            if isinstance(cur, ast.For) and isinstance(cur.target, ast.Name) and cur.target.id == m:
+                loop = cur
+                break
+            if isinstance(cur, (ast.If, ast.While)):
+                guards.append(cur.test)
+            cur = parents.get(cur)
+        if loop is None or not (isinstance(loop.iter, ast.Attribute) and loop.iter.attr == "machines"):
+            continue
+        n += 1
+        v = st.value
+        if isinstance(v, ast.Constant) and not guards:
+            chk.violation(
+                "R07.f", fi, st,
+                f"every machine of the operation gets the constant `{ast.unparse(v)}` unconditionally: the table no "
+                "longer depends on when the operation can start on that machine",
+                loc=fi.loc(st),
+            )
+            continue
+        skip = ast.unparse(tg)
+        dep = (not isinstance(v, ast.Constant) and mentions(v, m, skip=skip)) or any(mentions(g, m) for g in guards)
+        if dep:
+            chk.ok("R07.f", fi.qualname, fi.loc(st), f"`{skip}` is computed from `{m}`")
+        else:
+            chk.violation(
+                "R07.f", fi, st,
+                f"`{skip}` is filled with `{ast.unparse(v)[:70]}`, which does not depend on machine `{m}`: start and end "
+                "times differ per machine (each machine has its own next-available time), so the per-machine table "
+                "holds values of other machines and the filter prunes/keeps the wrong operations",
+                loc=fi.loc(st),
+            )
+    return n
 
 
 def _fmt(origins):
